@@ -1,5 +1,6 @@
 import Driver.Common
 import Model.Scope
+import Model.ScopeHistory
 namespace Driver.C08
 open Lean Driver Model.Scope
 
@@ -11,7 +12,31 @@ def parseGrant : String → Except String Grant
   | "direct" => pure .direct | "stored" => pure .stored | "refresh" => pure .refresh
   | s => throw s!"grant {s}"
 
+def supportedOf (j : Json) : Option (List (List Char)) :=
+  match j.getObjVal? "supported" with
+  | .ok (.arr a) => some (a.toList.filterMap fun x => match x with | .str s => some (chars s) | _ => none)
+  | _ => none
+
+open Model.ScopeHistory in
+def parseOp (o : Json) : Except String Op := do
+  let cfg : Cfg := { gen := ← parseGen (← getStr o "gen"), supported := supportedOf o, allowed := chars (← getStr o "allowed") }
+  match ← getStr o "op" with
+  | "issue" => pure (.issue cfg (optChars o "requested"))
+  | "refresh" => pure (.refresh cfg (← getNat o "idx") (optChars o "requested"))
+  | s => throw s!"op {s}"
+
+open Model.ScopeHistory in
+def handleHistory (j : Json) : Except String Json := do
+  let ops ← (← getArr j "ops").toList.mapM parseOp
+  let (ts, outs) := run [] ops
+  let js := outs.map fun o => match o with
+    | .invalidScope => Json.mkObj [("error", "invalid_scope")]
+    | .invalidGrant => Json.mkObj [("error", "invalid_grant")]
+    | .issued i => Json.mkObj [("response", optStr (i.response.map ofChars)), ("embedded", optStr (i.embedded.map ofChars))]
+  pure (Json.mkObj [("steps", Json.arr js.toArray), ("live", Json.arr (ts.map (fun t => Json.bool t.live)).toArray)])
+
 def handle : Handler := fun j => do
+  if (j.getObjVal? "ops").isOk then return ← handleHistory j
   let g ← parseGen (← getStr j "gen")
   let gr ← parseGrant (← getStr j "kind")
   let supported : Option (List (List Char)) :=
